@@ -357,7 +357,119 @@ pub fn pumped(rep: &mut Report, tier: Tier) {
     rep.absorb(t);
 }
 
+/// Every kind of leaf inside every representation that serde deserializes through its buffered
+/// `Content` tree (flatten, internally tagged, untagged): there the datum reaches the crate's
+/// deserializer through `deserialize_any` only, so what `deserialize_any` *announces* for null,
+/// numbers, strings, sequences and maps decides whether the typed visitor behind the buffer
+/// still accepts it (unit types accept `visit_unit` only, options `visit_none` / `visit_unit`,
+/// characters a one-character string, ...).
+#[derive(Serialize, Deserialize, PartialEq, Debug, Clone)]
+pub struct BufInner<T> {
+    pub v: T,
+    pub o: Option<T>,
+}
+
+#[derive(Serialize, Deserialize, PartialEq, Debug, Clone)]
+pub struct BufFlat<T> {
+    pub id: u8,
+    #[serde(flatten)]
+    pub inner: BufInner<T>,
+}
+
+#[derive(Serialize, Deserialize, PartialEq, Debug, Clone)]
+#[serde(tag = "t")]
+pub enum BufTagged<T> {
+    V { v: T },
+    N(BufInner<T>),
+}
+
+#[derive(Serialize, Deserialize, PartialEq, Debug, Clone)]
+#[serde(untagged)]
+pub enum BufUntagged<T> {
+    V { v: T },
+    W { w: Vec<T> },
+}
+
+#[derive(Serialize, Deserialize, PartialEq, Debug, Clone)]
+pub struct BufFlatEnum<T> {
+    pub id: u8,
+    #[serde(flatten)]
+    pub e: En<T>,
+}
+
+pub fn buffered<T>(x: T, what: &str, t: &mut Tally)
+where
+    T: Serialize + DeserializeOwned + PartialEq + Debug + Clone,
+{
+    buffered_as(x, what, false, t)
+}
+
+pub fn buffered_as<T>(x: T, what: &str, f32_data: bool, t: &mut Tally)
+where
+    T: Serialize + DeserializeOwned + PartialEq + Debug + Clone,
+{
+    check_datum(&BufFlat { id: 7, inner: BufInner { v: x.clone(), o: Some(x.clone()) } }, &format!("{what} in a flattened struct"), f32_data, t);
+    check_datum(&BufFlat { id: 7, inner: BufInner { v: x.clone(), o: None } }, &format!("{what} in a flattened struct (None beside it)"), f32_data, t);
+    check_datum(&BufTagged::V { v: x.clone() }, &format!("{what} in an internally tagged struct variant"), f32_data, t);
+    check_datum(&BufTagged::N(BufInner { v: x.clone(), o: Some(x.clone()) }), &format!("{what} in an internally tagged newtype variant"), f32_data, t);
+    check_datum(&BufUntagged::V { v: x.clone() }, &format!("{what} in an untagged struct variant"), f32_data, t);
+    check_datum(&BufUntagged::W { w: vec![x.clone(), x.clone()] }, &format!("Vec of {what} in an untagged struct variant"), f32_data, t);
+    check_datum(&vec![BufTagged::V { v: x.clone() }, BufTagged::N(BufInner { v: x.clone(), o: None })], &format!("Vec of internally tagged variants holding {what}"), f32_data, t);
+    check_datum(&BufFlatEnum { id: 1, e: En::New(x.clone()) }, &format!("flattened newtype variant holding {what}"), f32_data, t);
+    check_datum(&BufFlatEnum { id: 1, e: En::Struct { f: x.clone() } }, &format!("flattened struct variant holding {what}"), f32_data, t);
+    check_datum(&BufFlatEnum { id: 1, e: En::Tup(x.clone(), 3) }, &format!("flattened tuple variant holding {what}"), f32_data, t);
+    check_datum(&BufFlatEnum::<T> { id: 1, e: En::Unit }, "flattened unit variant", f32_data, t);
+}
+
+fn buffered_leaves(t: &mut Tally) {
+    buffered((), "()", t);
+    buffered(UnitStruct, "a unit struct", t);
+    buffered(std::marker::PhantomData::<u8>, "PhantomData", t);
+    buffered(Some(()), "Some(())", t);
+    buffered(None::<()>, "None::<()>", t);
+    buffered(true, "bool", t);
+    for x in [0u8, 255] {
+        buffered(x, "u8", t);
+    }
+    for x in [i8::MIN, -1] {
+        buffered(x, "i8", t);
+    }
+    for x in [i64::MIN, -1, i64::MAX] {
+        buffered(x, "i64", t);
+    }
+    for x in [0u64, u64::MAX] {
+        buffered(x, "u64", t);
+    }
+    for x in [0.0f64, -1.5, 1e300, 5e-324] {
+        buffered(x, "f64", t);
+    }
+    for x in [0.1f32, f32::MAX] {
+        buffered_as(x, "f32", true, t);
+    }
+    for x in ['a', '7', '\u{0}', '\u{e9}', '\u{1f600}'] {
+        buffered(x, "char", t);
+    }
+    for x in ["", "x", "7", "null", "a-string-longer-than-sixteen-bytes"] {
+        buffered(x.to_string(), "String", t);
+    }
+    buffered(Some(5u8), "Option<u8>", t);
+    buffered(None::<u8>, "Option<u8>", t);
+    buffered(vec![1u8, 2], "Vec<u8>", t);
+    buffered(Vec::<u8>::new(), "empty Vec", t);
+    buffered((1u8, "s".to_string()), "tuple", t);
+    buffered([1u8, 2], "array", t);
+    buffered(En::<u8>::Unit, "unit variant", t);
+    buffered(En::New(3u8), "newtype variant", t);
+    buffered(En::Tup(3u8, 4), "tuple variant", t);
+    buffered(En::Struct { f: 3u8 }, "struct variant", t);
+    buffered(UnitKey::Beta, "renamed unit variant", t);
+    buffered(BTreeMap::from([("k".to_string(), 1u8)]), "string-keyed map", t);
+    buffered(BTreeMap::from([(7i32, ())]), "integer-keyed map of units", t);
+    buffered(Bytes(vec![0, 255]), "bytes", t);
+}
+
 fn representations(t: &mut Tally) {
+    buffered_leaves(t);
     for x in [-128i8, -1, 0, 127] {
         for s in ["", "a", "t", "\u{1f600}"] {
             check_datum(&Internal::A { x, s: s.to_string() }, "internally tagged enum", false, t);
